@@ -21,6 +21,7 @@ func init() {
 			c.run("C14-R4", "SIBLING+LITERAL: end-of-transfer detection in the four pumps", c14R4)
 			c.run("C14-R5", "MUST-PASS: recovery — flush on every handshake exit, full reset to standby", c14R5)
 			c.run("C14-R7", "GUARD-DOM: polarity of the relay's hand-over decisions (flush routes, confirmed flag, recorded client facts)", c14R7)
+			c.run("C14-R8", "MUST-PASS: the relay's handshake steps return their errors and a failed step ends the handshake unconfirmed", c14R8)
 			c.run("C14-R6", "PAIR+GUARD-DOM (shared with C13-R1/R2): nothing can be parked after the flush, so no stale chunk is left for the next transfer's handshake", func(c *Ctx) { c13R1(c); c13R2(c) })
 		})
 }
@@ -315,8 +316,20 @@ func c14R3(c *Ctx) {
 			as := []assumption{{pred: isFieldLoad(cap.arg), val: true}, {pred: isFieldLoad(cap.sup), val: false}}
 			c.check(!blocksUnder(f, as)[sc[0].Block()], name+"/refuses-unsupported-"+cap.arg, c.ipos(sc[0]), "a "+cap.arg+" request the client cannot honour is refused before the config is sent", "a "+cap.arg+" request the client cannot honour still reaches the config exchange")
 			// and a supported / absent request is not refused: the config stays reachable
-			ok1 := blocksUnder(f, []assumption{{pred: isFieldLoad(cap.arg), val: false}, {pred: isFieldLoad("Confirm"), val: true}, {pred: isErrTest, val: false}})[sc[0].Block()]
-			c.check(ok1, name+"/accepts-without-"+cap.arg, c.ipos(sc[0]), "without a "+cap.arg+" request the config exchange is reachable", "the config exchange is unreachable even when "+cap.arg+" was not asked for")
+			// every other combination is accepted (asked+supported, not asked whatever the client supports)
+			ok1 := true
+			for _, combo := range [][2]bool{{false, false}, {false, true}, {true, true}} {
+				as := []assumption{{pred: isFieldLoad(cap.arg), val: combo[0]}, {pred: isFieldLoad(cap.sup), val: combo[1]}, {pred: isFieldLoad("Confirm"), val: true}, {pred: isErrTest, val: false}}
+				for _, other := range []struct{ arg, sup string }{{"Fork", "SupportFork"}, {"Directory", "SupportDirectory"}} {
+					if other.arg != cap.arg {
+						as = append(as, assumption{pred: isFieldLoad(other.arg), val: false})
+					}
+				}
+				if !blocksUnder(f, as)[sc[0].Block()] {
+					ok1 = false
+				}
+			}
+			c.check(ok1, name+"/accepts-without-"+cap.arg, c.ipos(sc[0]), "a "+cap.arg+" request is refused only when it was asked for and the client cannot honour it", "a transfer is refused although "+cap.arg+" was not asked for, or was asked for and is supported")
 		}
 	}
 	c.check(strings.Join(sets["recvFiles"], ",") == strings.Join(sets["sendFiles"], ","), "siblings/trz=tsz", "", "trz and tsz perform the same capability checks", "trz and tsz disagree on capability checks")
@@ -635,6 +648,54 @@ func c14R7(c *Ctx) {
 		}
 	}
 
+	// the relay's own lines take the same route decision (truth table, the condition is a conjunction)
+	for _, w := range []struct{ fn, tun, term string }{
+		{"TrzszRelay.sendStringToClient", "serverBufChan", "bypassTmuxChan"},
+		{"TrzszRelay.sendStringToServer", "clientBufChan", "osStdinChan"},
+	} {
+		sf := c.fn(w.fn)
+		var tunSend, termSend *ssa.Send
+		var tload ssa.Value
+		eachInstr(sf, func(in ssa.Instruction) {
+			if s, ok := in.(*ssa.Send); ok {
+				base, ch, _ := fieldOf(s.Chan)
+				switch ch {
+				case w.tun:
+					tunSend, tload = s, base
+				case w.term:
+					termSend = s
+				}
+			}
+		})
+		if tunSend == nil || termSend == nil {
+			c.bad(shortID(w.fn)+"/routes", c.pos(sf.Pos()), "the two routes (tunnel / terminal) of the relay's own lines were not found")
+			continue
+		}
+		tnil := func(val bool) assumption {
+			return assumption{val: val, cmp: func(op token.Token, x, y ssa.Value) (bool, bool) {
+				if (op != token.EQL && op != token.NEQ) || !sameValue(x, tload) || !isNilConst(y) {
+					return false, false
+				}
+				return true, op == token.EQL
+			}}
+		}
+		conn := func(val bool) assumption {
+			return assumption{pred: func(v ssa.Value) bool { call, _ := callOf(v); return call != nil && isAtomicOnField(call, "tunnelConnected", "Load") }, val: val}
+		}
+		for _, tc := range []struct {
+			name   string
+			as     []assumption
+			tunnel bool
+		}{
+			{"no-tunnel-relay", []assumption{tnil(true)}, false},
+			{"tunnel-not-connected", []assumption{tnil(false), conn(false)}, false},
+			{"tunnel-connected", []assumption{tnil(false), conn(true)}, true},
+		} {
+			reach := blocksUnder(sf, tc.as)
+			good := reach[tunSend.Block()] == tc.tunnel && reach[termSend.Block()] == !tc.tunnel
+			c.check(good, shortID(w.fn)+"/route@"+tc.name, c.ipos(tunSend), "the relay's own line takes the tunnel exactly when a tunnel relay exists and is connected", "the relay's own line takes the wrong route for '"+tc.name+"' (nil tunnel relay dereferenced, or the line ends up on the other connection)")
+		}
+	}
 	h := c.fn("TrzszRelay.handshake")
 	ra := callsIn(h, idIs("(*trzsz.TrzszRelay).recvAction"))
 	sa := callsIn(h, idIs("(*trzsz.TrzszRelay).sendAction"))
@@ -735,4 +796,71 @@ func c14R7(c *Ctx) {
 func isErrTest(v ssa.Value) bool {
 	b, ok := v.(*ssa.BinOp)
 	return ok && b.Op == token.NEQ && isNilConst(b.Y) && isErrorType(b.X.Type())
+}
+
+// c14R8: error discipline of the relay's handshake. The four exchange steps and everything they call return their
+// errors (same rule as C02-8); in the handshake itself the error edge of each step ends the handshake as
+// "not confirmed" without running a later step.
+func c14R8(c *Ctx) {
+	var roots []*ssa.Function
+	for _, n := range []string{"recvAction", "sendAction", "recvConfig", "sendConfig"} {
+		roots = append(roots, c.fn("TrzszRelay."+n))
+	}
+	reach := c.reachableFrom(roots...)
+	// what the C02 rule already covers is not repeated here
+	covered := c.reachableFrom(c.fn("trzszTransfer.sendFiles"), c.fn("trzszTransfer.recvFiles"))
+	errDiscipline(c, reach, covered, 8)
+	h := c.fn("TrzszRelay.handshake")
+	steps := []string{"(*trzsz.TrzszRelay).recvAction", "(*trzsz.TrzszRelay).sendAction", "(*trzsz.TrzszRelay).recvConfig", "(*trzsz.TrzszRelay).sendConfig"}
+	isStep := func(in ssa.Instruction) bool {
+		ci, ok := in.(ssa.CallInstruction)
+		return ok && idIs(steps...)(calleeID(ci.Common()))
+	}
+	for _, ci := range callsIn(h, idIs(steps...)) {
+		call := ci.(*ssa.Call)
+		ev := errorValueOf(call)
+		u := classifyErrUse(ev)
+		key := "handshake/" + shortID(calleeID(&call.Call)) + ".error-ends-handshake"
+		if len(u.tests) == 0 {
+			// the error variable is captured by the deferred reporter: the value goes through its cell
+			for _, r := range referrersOf(ev) {
+				st, ok := r.(*ssa.Store)
+				if !ok || st.Val != ev {
+					continue
+				}
+				for _, r2 := range referrersOf(st.Addr) {
+					ld, ok := r2.(*ssa.UnOp)
+					if !ok || ld.Op != token.MUL || ld.Block() != st.Block() || instrIndex(ld) < instrIndex(st) {
+						continue
+					}
+					u.tests = append(u.tests, classifyErrUse(ld).tests...)
+				}
+			}
+		}
+		if len(u.tests) == 0 {
+			c.bad(key, c.ipos(call), "the error of this handshake step is not tested: the relay goes on with the next step after a failed one")
+			continue
+		}
+		good := true
+		for _, t := range u.tests {
+			start := t.Block().Succs[nonNilEdge(t)]
+			// no later step, and the confirmed flag is not set, on the error edge
+			hit, _ := reachFrom(start, 0, func(in ssa.Instruction) bool {
+				if isStep(in) {
+					return true
+				}
+				if st, ok := in.(*ssa.Store); ok {
+					if al, isAl := st.Addr.(*ssa.Alloc); isAl && allocName(al) == "confirm" {
+						b, isC := constBool(st.Val)
+						return isC && b
+					}
+				}
+				return false
+			}, nil)
+			if hit != nil {
+				good = false
+			}
+		}
+		c.check(good, key, c.ipos(call), "a failed step ends the handshake: no later step runs and it is not marked confirmed", "after this step failed the relay can still run a later step or mark the handshake confirmed")
+	}
 }
